@@ -114,13 +114,14 @@ Queries(bs, w) ==
 OracleEvents(s) ==
   LET periods == IF Thorough THEN {-4, -1, 0, 1, 2, 3} ELSE {-1, 0, 2}
       roots == {Root(0, "T1", "h1"), Root(0, "TJ", "h1")} IN
-  Advance(s, IF Thorough THEN 7 ELSE 4, {0, 1, 2})
+  \* thorough bounds are fitted to measured state counts: six periods and five ticks give 5*10^4 states / 5*10^6 transitions; seven ticks, three
+  \* block numbers and a second bridge did not finish (2*10^6 states after 20 minutes)
+  Advance(s, IF Thorough THEN 5 ELSE 4, {0, 1, 2})
   \cup Creates(s, {"u1"}, {Cfg("p1", "c1", p, MetaNone) : p \in periods})
-  \cup Proposes({"p1", "x"}, {1, 2}, 0..3, 1..(IF Thorough THEN 3 ELSE 2), roots)
+  \cup Proposes({"p1", "x"}, {1, 2}, 0..3, 1..2, roots)
   \cup Deletes({"gov", "p1", "c1", "x"}, {1, 2}, 0..3)
   \cup (IF s.l1seq["1"] <= 2 THEN Deposits({"u1"}, {1}, {"u2"}, {"d1"}, {1}, {"p0"}) ELSE {})
   \cup {Claim("x", 1, o, W1, 0, "T1", 1, "h1", "none") : o \in 1..2}
-  \cup (IF Thorough THEN UpdProposer({"gov"}, {1}, {"p2"}) ELSE {})
 
 SeqBelow(s, b, n) == s.l1seq[K(b)] <= n
 LedgerEvents(s) ==
@@ -238,7 +239,7 @@ Events(s) ==
     [] Fam = "auth"   -> AuthEvents(s)
     [] Fam = "perm"   -> PermEvents(s)
 
-MaxB == CASE Fam = "window" -> 1 [] Fam = "trees" -> 1 [] Fam = "oracle" -> (IF Thorough THEN 2 ELSE 1) [] Fam = "ledger" -> 2 [] Fam = "claims" -> 2 [] Fam = "auth" -> 1 [] Fam = "perm" -> 2
+MaxB == CASE Fam = "window" -> 1 [] Fam = "trees" -> 1 [] Fam = "oracle" -> 1 [] Fam = "ledger" -> 2 [] Fam = "claims" -> 2 [] Fam = "auth" -> 1 [] Fam = "perm" -> 2
 
 Amt0 == IF Fam = "trees" THEN MaxTreeN ELSE 8
 S0 == InitStateSec(BKeys, Accts, Denoms, {"u1", "u2"}, Amt0, "d1", Chans, 3, MaxB, Devs, IF Fam = "window" THEN 1 ELSE 2)
